@@ -75,6 +75,7 @@ def run(ctx):
                '%d validation return(s); %s' % (len(local_errs), 'none is reachable after create_continuity' if not late else 'one at line %s is reachable AFTER the child thread was created' % late[0][1].get('ln')),
                line=late[0][1].get('ln') if late else cc.line)
     c104(ctx)
+    c105(ctx)
     # create_continuity itself: first frame is ContinuityCreated with seq 0
     c = P.fn(STORE + 'create_continuity')
     ctx.touch(c)
@@ -132,3 +133,45 @@ def c104(ctx):
         wr = [x for x in sources(f, {'c': {'l': aid}}) if x[0] == 'call']
         okw = all(re.search(r'write_bundle_v1$', x[1]) for x in wr)
         ctx.ob('C10.4', f, 'artifact-id-only-from-writer', okw, 'summary_artifact_id is only ever re-assigned from write_bundle_v1 (%s)' % sorted(x[1].rsplit('::', 1)[-1] for x in wr), line=f.line)
+
+
+def c105(ctx):
+    """the cut for `from_message_id` is the LAST frame related to that message (its run may end
+    after later messages were posted): the scan that looks for related frames must walk the whole
+    source stream."""
+    from ..core import switches
+    P = ctx.prog
+    ctx.rule('C10.5', 'whole-stream scan: in branch / handoff the loop that collects the frames related to `from_message_id` (run_spawned / run_ended of that message) leaves only when the iterator is exhausted — no break / return inside it (runs overlap, so the run that answered the message can end after later messages).')
+    adt = P.adts.get('rip_kernel::EventKind')
+    idx = {v['name']: i for i, v in enumerate(adt['variants'])}
+    for name in ('branch', 'handoff'):
+        f = P.fn(STORE + name)
+        loops = []
+        for h, body in f.loops().items():
+            # the loop that inspects ContinuityRunEnded frames
+            hit = False
+            for (bi, on, ts, els) in switches(f):
+                if bi in body and str(idx['ContinuityRunEnded']) in ts:
+                    o = f.origin(on)
+                    if o[0] == 'rv' and o[1]['k'] == 'discr':
+                        hit = True
+            if hit:
+                loops.append((h, body))
+        if not loops:
+            raise CheckError('C10.5: %s has no loop over the source events that inspects run_ended frames' % name)
+        h, body = min(loops, key=lambda x: len(x[1]))
+        exits = [(a, b) for a in body for b in f.succs(a) if b not in body]
+        bad = []
+        for (a, b) in exits:
+            t = f.blocks[a]['t']
+            ok = False
+            if t['k'] == 'switch':
+                o = f.origin(t['on'])
+                if o[0] == 'rv' and o[1]['k'] == 'discr':
+                    d1 = f.single_def(o[1]['pl']['l'])
+                    ok = bool(d1 and d1[2] == 'call' and re.search(r'Iterator>::next$|Iterator::next$', (d1[3]['f'].get('r') or d1[3]['f'].get('p') or '')))
+            if not ok:
+                bad.append((a, b))
+        ctx.ob('C10.5', f, 'related-frames-scan-complete', not bad, 'the scan for frames related to from_message_id %s' % ('ends only when the source stream is exhausted' if not bad else
+               'can stop EARLY (a break / return inside the loop): a run that ends after a later message is cut off, and the recorded cut lies before the end of the run that answered the message'),
+               line=f.blocks[bad[0][0]]['t'].get('ln') if bad else f.blocks[h]['t'].get('ln', f.line))
